@@ -127,7 +127,7 @@ static void decode_batch(const bytes &payload, std::vector<DV> &out, size_t lo, 
   }
 }
 
-std::vector<DV> batch_dv(const std::vector<bytes> &files, const std::vector<bytes> &keys, int T, int chunk, int refill)
+std::vector<DV> batch_dv(const std::vector<bytes> &files, const std::vector<bytes> &keys, int T, int chunk, int refill, std::string *batch_only)
 {
   std::vector<DV> out(files.size());
   const size_t B = 256;
@@ -169,6 +169,9 @@ std::vector<DV> batch_dv(const std::vector<bytes> &files, const std::vector<byte
         return out; // the first file that kills the child is the finding; the rest stays unevaluated
       }
     }
+    // every file of the batch got through alone, the batch as a whole did not
+    if (batch_only && batch_only->empty())
+      *batch_only = r.describe();
   }
   return out;
 }
